@@ -24,8 +24,7 @@ Core Lean only (linked into the driver).
 namespace Paginate
 
 /-- Strict total order on keys.  Go compares strings byte-wise; the driver instantiates this with
-Lean's `String` order (code points), which coincides on valid UTF-8 — checked by the harness with
-non-ASCII keys. -/
+byte strings (`List Nat`, `ltBytes`), so non-ASCII keys are ordered exactly as Go orders them. -/
 class KOrd (κ : Type) where
   lt : κ → κ → Bool
   irrefl : ∀ a, lt a a = false
@@ -232,7 +231,8 @@ def drain (nil : C) (o : Nat → C → Res κ ν C) : Nat → Iter κ ν C → L
 end Paginate
 
 namespace Paginate
-/-- The driver's key type: Lean `String` order (lexicographic on code points). -/
+/-- Lean `String` order (lexicographic on code points) is an instance too; the driver uses the
+byte-string instance below, which is Go's order even on invalid UTF-8. -/
 instance : KOrd String where
   lt a b := decide (a < b)
   irrefl a := by simp
